@@ -25,6 +25,7 @@ type SpecEnv struct {
 	calleeFn    *ssa.Function
 	depth       int
 	inQuant     bool
+	cur         *State // inside old(): the current state (ghosts and the range index are read from it)
 	triggers    []Expr
 	noRangeGuards bool // axioms over uninterpreted spec functions quantify over mathematical integers
 }
@@ -87,7 +88,14 @@ func (e *SpecEnv) eval(x Expr) Val {
 			return e.eval(n.X)
 		}
 		c := e.child()
-		c.st = e.old
+		// the heap (and parameters) of the entry state, but the CURRENT ghost values: old(a[g]) with a ghost g
+		// reads the old array at the position the ghost holds now
+		os := e.old.clone()
+		os.ghosts = e.st.ghosts
+		c.st = os
+		if c.cur == nil {
+			c.cur = e.st
+		}
 		c.useLocals = false
 		return c.eval(n.X)
 	case EUnary:
@@ -331,6 +339,34 @@ func (e *SpecEnv) evalIdent(name string) Val {
 		if ri, _ := rangeIndexLoop(e.atLoop.header); ri != nil {
 			if v, ok := e.st.locals[ri]; ok {
 				return v
+			}
+		}
+	}
+	if name == "rangeindex" && e.atLoop == nil && g.curBlock != nil {
+		// in a call/store rule: the index of the innermost `range` loop whose body contains the current block
+		var best *loopInfo
+		for _, li := range g.loops {
+			if !li.body[g.curBlock] {
+				continue
+			}
+			if ri, _ := rangeIndexLoop(li.header); ri == nil {
+				continue
+			}
+			if best == nil || len(li.body) < len(best.body) {
+				best = li
+			}
+		}
+		if best != nil {
+			ri, _ := rangeIndexLoop(best.header)
+			st := e.st
+			if e.cur != nil {
+				st = e.cur
+			}
+			if v, ok := st.locals[ri]; ok {
+				return v
+			}
+			if ad := g.addrs[ri]; ad != nil {
+				return g.loadAddr(ad, st)
 			}
 		}
 	}
